@@ -359,6 +359,7 @@ def gen_cases(chk):
         if os.path.basename(f) in ('emb_spreadsheet.odp', 'spreadsheet-with-macro.ods'):
             cases.append({'base': 'file:' + f, 'mut': 'object-renumber', 'seed': rng.getrandbits(48)})
             cases.append({'base': 'file:' + f, 'mut': 'replicate-objects', 'seed': rng.getrandbits(48)})
+            cases.append({'base': 'file:' + f, 'mut': 'object-own-files', 'seed': rng.getrandbits(48)})
         if os.path.basename(f) in ('simplelist.odt', 'emb_spreadsheet.odp', 'cols.odp'):
             for mname in ('fonts-differ', 'fonts-styles-only', 'inline-document'):
                 cases.append({'base': 'file:' + f, 'mut': mname, 'seed': rng.getrandbits(48)})
@@ -373,6 +374,8 @@ def gen_cases(chk):
     for m in names:
         for _ in range(nsyn if chk.tier == 'thorough' else 1):
             cases.append({'base': 'syn:' + rng.choice(['plain', 'plain', 'objects']), 'mut': m, 'seed': rng.getrandbits(48)})
+    for _ in range(nsyn):
+        cases.append({'base': 'syn:objects', 'mut': 'object-own-files', 'seed': rng.getrandbits(48)})
     return cases
 
 
